@@ -36,7 +36,7 @@ SPEC = dict(
                      R("c19_url", "asan", 8, 250000, "gram", 600),
                      R("c19_fuzz", "fuzz", 4, 300000, "", 600),
                      # valgrind memcheck lines: only memcheck reports are judged (see vf FLAVORS["vg"])
-                     R("c19_url", "vg", 4, 3000, "gram", 1800)],
+                     R("c19_url", "vg", 4, 3000, "gram", 150)],
                floor={"cases": 8000000, "accepted": 700000, "rejected": 4000000, "roundtrips": 700000,
                       "clones": 600000, "accepted_heap": 60000, "accepted_hostless": 60000,
                       "utf8_enum": 4000000, "scheme_variants": 5000, "length_sweep": 4000,
